@@ -575,7 +575,7 @@ EB_API EbErrorType svt_av1_dec_init(EbComponentType *svt_dec_component) {
 EB_API EbErrorType svt_av1_dec_frame(EbComponentType *svt_dec_component, const uint8_t *data,
                                      const size_t data_size, uint32_t is_annexb) {
     EbErrorType return_error = EB_ErrorNone;
-    if (svt_dec_component == NULL)
+    if (svt_dec_component == NULL || (data == NULL && data_size != 0))
         return EB_ErrorBadParameter;
 
     EbDecHandle *dec_handle_ptr       = (EbDecHandle *)svt_dec_component->p_component_private;
@@ -598,6 +598,10 @@ EB_API EbErrorType svt_av1_dec_frame(EbComponentType *svt_dec_component, const u
         dec_pic_mgr_update_ref_pic(dec_handle_ptr,
                                    (EB_ErrorNone == return_error) ? 1 : 0,
                                    dec_handle_ptr->frame_header.refresh_frame_flags);
+
+        // A failed parse does not necessarily consume its input: stop instead of retrying it forever
+        if (return_error != EB_ErrorNone)
+            break;
 
         // Allow extra zero bytes after the frame end
         while (data < data_end) {
